@@ -46,7 +46,11 @@ def def_text(d):
         out.append("%s%s %s\n" % (name, "-" if d["islong"] else "--", body_text(d["body"])))
     elif k == "quantity":
         out.append("%s ? %s\n" % (name, body_text(d["body"])))
+    elif k == "symdir":
+        out.append("!symbol %s %s\n" % (name, s(d["sym"])))
     elif k == "subst":
+        if d.get("sym"):
+            out.append("!symbol %s %s\n" % (name, s(d["sym"])))
         out.append("%s {\n" % name)
         for p in d["props"]:
             pn, on, inn = s(p["name"]), s(p["oname"]), s(p["iname"])
@@ -60,6 +64,31 @@ def def_text(d):
     else:
         raise vlib.ToolError("cannot render definition kind %r" % k)
     return "".join(out)
+
+
+def parse_file_model(items):
+    """MC_Loader.ParseFile: the raw definitions of the items of one file -> the list the file parses to (a
+    `!symbol` line attaches its symbol to the substance of that name in the SAME file)"""
+    raw = [d for it in items for d in it]
+    dirs = {s(d["name"]): d["sym"] for d in raw if d["kind"] == "symdir"}
+    out = []
+    for d in raw:
+        if d["kind"] == "symdir":
+            continue
+        if d["kind"] == "subst" and s(d["name"]) in dirs:
+            d = dict(d, sym=dirs[s(d["name"])])
+        out.append(d)
+    return out
+
+
+def symdir_signature(pool, files):
+    """which `!symbol` lines of a case (files of 1-based pool indices) share a file with the substance they name"""
+    sig = []
+    for f in files:
+        raw = [d for i in f for d in pool[i - 1]]
+        substs = {s(d["name"]) for d in raw if d["kind"] == "subst"}
+        sig += [(s(d["name"]), s(d["sym"])) for d in raw if d["kind"] == "symdir" and s(d["name"]) in substs]
+    return tuple(sorted(sig))
 
 
 def item_text(item):
@@ -173,6 +202,14 @@ def classify_msg(m):
     return ("unclassified", None, m[:80])
 
 
+FAIL_KINDS = ("malformed", "notnum", "prefix", "quantity", "subst")
+
+
+def refused(msgs):
+    """the definitions a load refused: {(namespace, name)} (Loader.tla: Refused)"""
+    return {(c[1], c[2]) for c in (classify_msg(m) for m in msgs) if c[0] in FAIL_KINDS}
+
+
 def norm_code(dump):
     units = {}
     for u in dump["units"]:
@@ -191,6 +228,7 @@ def norm_code(dump):
         "prefixes": [(p["s"], frac_of_limbs(p["v"])) for p in dump["prefixes"]],
         "quants": {tuple(sorted((s(x["u"]), x["e"]) for x in q["dims"])): q["s"] for q in dump["quantities"]},
         "subst": subst,
+        "symbols": {s(x["sym"]): s(x["name"]) for x in dump["symbols"]},
         "docs": {d["s"]: d["text"] for d in dump["doc_texts"]},
         "cats": {s(c["name"]): s(c["cat"]) for c in dump["categories"]},
         "catnames": {s(c["id"]): s(c["name"]) for c in dump["category_names"]},
@@ -214,6 +252,7 @@ def norm_model(db):
         "prefixes": [(s(p["name"]), model_num(p["v"])[0]) for p in db["prefixes"]],
         "quants": {tuple(sorted((s(x["u"]), x["e"]) for x in q["d"])): s(q["name"]) for q in db["quants"]},
         "subst": subst,
+        "symbols": {s(x["name"]): s(x["v"]) for x in db.get("symbols", [])},
         "docs": {s(d["name"]): d["v"] for d in db["docs"]},
         "cats": {s(c["name"]): s(c["v"]) for c in db["cats"]},
         "catnames": {s(c["name"]): c["v"] for c in db["catnames"]},
